@@ -11,7 +11,12 @@ THEOREMS = ['C14.serializer_bytes_tied', 'C14.deserializer_text_is_the_model', '
             # the round trip on the TEXTS (Props/C14b.lean, EndToEnd2.lean): bytes of the translated serializer methods fed to the translated
             # deserializer running on the tracker and on the translated StatefulInterpreter end in the history's state; errors at text level
             'C14.roundtrip_text_phase', 'C14.roundtrip_text', 'C14.deserMod_is_deserialize', 'C14.undecodable_text', 'C14.truncated_is_error_text',
-            'C14.unknown_is_error_text', 'C14.unknown_head_raises_text', 'C14.keys_excluded_point', 'C14.RoundTripExample.mod_roundtrip']
+            'C14.unknown_is_error_text', 'C14.unknown_head_raises_text', 'C14.keys_excluded_point', 'C14.RoundTripExample.mod_roundtrip',
+            # "the same sequence of machine steps" (Props/C14c.lean, EndToEnd3.lean): one interpreter call per instruction, re-serialising the
+            # replay gives the same streams, the states are related after EVERY prefix — model, translated deserializer, translated interpreter
+            'C14.one_call_per_instruction', 'C14.text_step_makes_the_model_call', 'C14.roundtrip_same_steps', 'C14.roundtrip_text_same_steps_phase',
+            'C14.roundtrip_text_same_steps', 'C14.calls_correspond_only_up_to_notation', 'C14.RoundTripExample.mod_same_steps',
+            'C14.RoundTripExample.mod_every_prefix']
 
 
 def dup_keys(bs):
@@ -59,7 +64,7 @@ def decimal_names(rng, cl, calls):
 
 def run(rep):
     rng = random.Random(rep.seed * 1000003 + 14)
-    ok, detail = core.proof_gate(rep, 'Pi2.Props.C14b', THEOREMS)
+    ok, detail = core.proof_gate(rep, 'Pi2.Props.C14c', THEOREMS)
     quick = rep.tier == 'quick'
     N = 300 if quick else 5000
     hs = [decimal_names(rng, *genhist.gen_history(rng, rng.choice((8, 15, 30, 50)))) for _ in range(N)]
